@@ -94,6 +94,33 @@ CHECKS['C08'] = dict(
     note='Fault model excludes COMMIT/ROLLBACK and unlink/rmdir failures (no implementation can keep the invariant '
          'when the OS refuses to delete).')
 
+CHECKS['C10'] = dict(
+    level='exploration', ref='3/C10',
+    technique='runtime monitoring: lock-step deque-per-prefix monitor over mixed queue/ordinary-key histories under a '
+              'virtual clock; schedule fuzzer + linearizability against a deque model; exactly-once and per-producer '
+              'real-time order monitors over free-running threads/processes',
+    text='~30k sequential calls over 7 prefixes (incl. prefixes that extend one another and look-alike ordinary keys), '
+         '~1k fuzzed producer/consumer schedules linearized against the deque model, 16 free runs with unique '
+         '(producer, seq) payloads checked for loss, duplication, partial values and per-producer order.',
+    note='A queue key is prefix-<15 digits> (int in (0,10**15) for prefix None); all other keys are ordinary.')
+CHECKS['C11'] = dict(
+    level='exploration', ref='3/C11',
+    technique='runtime monitoring: lock-step collections.deque(maxlen) monitor over generated histories with '
+              'reopen/pickle/copy/size-limit/clock-jump events; schedule fuzzer + linearizability against the bounded '
+              'deque; exactly-once monitor over free-running threads/processes',
+    text='~22k calls per quick run compared by result/exception type and full contents after every call, Deques from '
+         'directory, FanoutCache.deque and DjangoCache.deque, maxlen in {None,0,1,3,7}; ~640 fuzzed schedules; 16 free '
+         'runs.',
+    note='Declared normalisations: maxlen None reported as inf; deque-typed comparison operands; int indices.')
+CHECKS['C12'] = dict(
+    level='exploration', ref='3/C12',
+    technique='runtime monitoring: lock-step collections.OrderedDict monitor; continuous-presence monitor and '
+              'OrderedDict linearizability under the schedule fuzzer; free-running presence monitor',
+    text='~20k sequential calls incl. views, equality against Index/OrderedDict/dict, alias keys, persistence events; '
+         '~960 presence schedules (writers only replace, readers must never miss) with ~2k lookups overlapping a '
+         'replacement; ~640 atomicity schedules; 16 free runs.',
+    note='bool/NaN keys not generated. Presence is judged strictly (no tolerated miss).')
+
 NOT_YET = {}
 
 
